@@ -312,7 +312,7 @@ def configs(what, tier, seed):
 
 EXPL = {
  'C10': 'bounded symbolic verification: the real state-space builder and every output-row accessor are executed on circuits with symbolic positive R, L, C; both matrix inversions are contract stubs; with the state equation s X = A X + B U assumed for arbitrary complex s, X, U, z3 (QF_LRA certificates, product saturation depth 2) shows that the outputs C X + D U for all node potentials, element voltages and currents satisfy the phasor tableau at s (i = sC v, v = sL i, sources equal to their own inputs) and that X are the capacitor voltages / inductor currents; hence C(sI-A)^-1 B + D equals the phasor response wherever both exist (uniqueness of the tableau solution), including the DC gain; dimensions, the published source order and the Circuit-level wrapper are asserted directly',
- 'C11': 'bounded symbolic verification: with the code\'s own A and c_row_voltage rows, z3 (QF_LRA certificate, depth 2) shows  sum_k lambda_k X_k (A X)_k + sum_R (c_row_voltage(R) X)^2 / R = 0  for all real X and all positive R, L, C, i.e. X^T W A X = -sum v_R^2/R <= 0, which is W A + A^T W negative semidefinite; eigenvalue and boundedness clauses are its mathematical consequences',
+ 'C11': 'bounded symbolic verification: with the code\'s own A and c_row_voltage rows, z3 (QF_LRA certificate, depth 2) shows  sum_k lambda_k X_k (A X)_k + sum_R (c_row_voltage(R) X)^2 / R = 0  for all real X and all positive R, L, C, i.e. X^T W A X = -sum v_R^2/R <= 0, which is W A + A^T W negative semidefinite; eigenvalue and boundedness clauses are its mathematical consequences; the simulated-energy clause additionally rests on the trajectory being the exact response of that model: the wiring of TransientSolution / continuous_state_space_solver to the (trusted, not encoded) integrator scipy.signal.lsim is checked with recording stubs',
  'C12': 'bounded symbolic verification of the transient machinery: (i) for ARBITRARY state and input vectors the reported currents obey KCL at every node, voltages are potential differences, resistors obey Ohm, source rows equal their inputs, the states are the capacitor voltages / inductor currents, and capacitor current rows equal C*(A x + B u), inductor voltage rows L*(A x + B u) (QF_LRA certificates); (ii) TransientSolution and continuous_state_space_solver are run with recording stubs for the integrator: inputs are fed in the model\'s own source order by name, zero initial state, model (A,B,I,0), getters return c_row x_k + d_row u_k, scipy receives (A,B,C,D),(U,T) unchanged',
 }
 
@@ -331,7 +331,7 @@ def main_for(what, tier, extra_workers=None):
         explanation=EXPL[what],
         assumptions=['exact field arithmetic (conditioning of the two inversions outside the claim)', 'np.linalg.inv(M) returns W with M W = W M = I (symmetric W for symmetric M)',
                      'degenerate circuits (C-V loops, L-I cutsets, pole at s = 0, ill-posed) are excluded by exact rational rank tests on the oracle side',
-                     'ideal dc voltage / current sources as inputs'] + (['the integrator scipy.signal.lsim is NOT encoded: accuracy of the simulated trajectory, start from rest inside lsim and settling are outside the claim'] if what == 'C12' else []),
+                     'ideal dc voltage / current sources as inputs'] + (['the integrator scipy.signal.lsim is NOT encoded: accuracy of the simulated trajectory, start from rest inside lsim and settling are outside the claim'] if what in ('C12', 'C11') else []),
         bounds={'circuits': 'all non-degenerate RLC + ideal-source circuits with 2 nodes / 2 components' + (', 2 nodes / 3 and 3 nodes / 3 components; seeded samples of 3 nodes / 4, 4 nodes / 4-5, 5 nodes / 6 components (<= 3 reactive elements, <= 2 sources)' if tier == 'thorough' else '; seeded samples of 3 nodes / 3-4 and 4 nodes / 4 components'),
                 'names / order': 'renamed + shuffled variants with names interleaving sources, inductors and passive elements; symbolic label order (all orders) for a subset', 'saturation depth': 2},
         trusted=['z3 QF_LRA', 'symx executor', 'oracle/tableau.py'])
